@@ -23,20 +23,23 @@ PID = "C16"
 MANIFEST = dict(
     category="model_checking",
     technique="TLC enumerates the complete finite space of abstract scenario descriptions of ScenarioConfig.tla and "
-              "computes their meaning; every case is rendered in HCL and YAML (two styles each), run through the real "
-              "front-ends and providers, and TraceScenarioConfig.tla (TLC) demands all renderings equal that meaning",
+              "computes their meaning; every case is rendered in HCL and YAML (two styles each, plus .yml and .json on a "
+              "share of the cases), run through the real front-ends and registered providers, and "
+              "TraceScenarioConfig.tla (TLC) demands that every rendering equals that meaning",
     design_ref="DESIGN.md §4 C16",
     text="The property quantifies over scenario descriptions. The specification is a function from an abstract "
          "description to the expected AmmoConfig and ammo list (defaults applied, weights spread, name(n, sleep) forms "
-         "expanded). Both syntaxes are compared against this single value, so they agree with each other and with the "
-         "documented meaning; optional fields present/absent are covered group-wise and pairwise, strings by single "
-         "substitution of tokens that stand for literals hostile to YAML 1.1 typing, YAML indicators, HCL templates "
-         "and escaping. HCL conveniences (locals, merge/concat/zipmap/...) are a rendering style of their own.",
-    note="Bounds: 2 requests/calls, <= 2 scenarios, <= 3 sources, <= 5 postprocessors; pairs on the richest "
-         "description (quick) and also on the poorest (thorough). Trusted: the renderers and projections in "
-         "harness/cmd/vdrive/scenconfig*.go. The projection ignores nil-vs-empty collections, the Locals helper and "
-         "private iterators. Not decided: execution of templates/processors (C15/C19), csv/json file contents, "
-         "numbers or booleans written unquoted where a string is expected (YAML rejects them, HCL converts).",
+         "expanded, variables of the ammo). Both syntaxes are compared against this single value, so they agree with "
+         "each other and with the documented meaning; optional fields present/absent are covered group-wise and "
+         "pairwise, strings by substitution of tokens that stand for literals hostile to YAML 1.1 typing, YAML "
+         "indicators, HCL templates and escaping. HCL conveniences (locals, merge/concat/zipmap/..., interpolation, "
+         "heredocs) and YAML conveniences (locals, anchors, merge keys, block scalars) are rendering styles of their own.",
+    note="Bounds: 2 requests/calls, <= 2 scenarios, <= 3 variable sources, <= 4 postprocessors; flag pairs on the richest "
+         "description (quick: http), thorough also on the poorest, all tokens on all slots and two-slot substitutions. "
+         "Trusted: the renderers and projections in harness/cmd/vdrive/scenconfig*.go. The projection ignores "
+         "nil-vs-empty collections, the Locals helper and private iterators. Not decided: execution of templates and "
+         "processors (C15/C19), csv/json data file contents, unquoted numbers/booleans where a string is expected "
+         "(YAML rejects them). Known findings: map key `<<` and numeric `variables` values in HCL, raw NEL/BOM in .json.",
 )
 
 STYLES = ["hcl", "hcll", "yaml", "yamla"]          # rendered for every case
@@ -105,7 +108,7 @@ def _diff(a, b, path, out):
 
 def expected_for(keys):
     """Description, Decoded and Ammo of the given keys, computed by TLC (diagnostics and replay only)."""
-    d = vlib.scratch()
+    d = vlib.scratch("c16-")
     kf, of = os.path.join(d, "key.ndjson"), os.path.join(d, "one.ndjson")
     vlib.write_ndjson(kf, [{"key": k} for k in keys])
     r = vlib.tlc("ScenarioConfigMC", "ScenarioConfig_one.cfg", env={"VERIF_KEY": kf, "VERIF_CASES": of}, workers=1,
@@ -139,7 +142,7 @@ def report(v, rows, bad, base, binary):
     """bad: {line number -> set of invariants}.  One violation per (case class, invariants)."""
     if not bad:
         return
-    d = vlib.scratch()
+    d = vlib.scratch("c16-")
     lns = sorted(bad)[:40]
     # rendered texts of the failing cases (the driver re-renders them; rendering is deterministic)
     sub = os.path.join(d, "cases.ndjson")
@@ -148,7 +151,7 @@ def report(v, rows, bad, base, binary):
         for ln in lns:
             f.write(json.dumps({"id": rows[ln - 1]["id"], "key": exp[ln]["key"], "desc": exp[ln]["desc"]}) + "\n")
     texts = os.path.join(d, "texts.ndjson")
-    vlib.run_driver(binary, ["scenconfig", "-cases", sub, "-out", os.path.join(d, "again.ndjson"), "-texts", texts])
+    vlib.run_driver(binary, ["scenconfig", "-cases", sub, "-out", os.path.join(d, "again.ndjson"), "-texts", texts, "-allstyles"])
     txt = vlib.read_ndjson(texts)
     for i, ln in enumerate(lns):
         row, e = rows[ln - 1], exp[ln]
@@ -199,10 +202,34 @@ def validate(v, trace, rows, base, binary, workers=8, timeout=900):
     return tr, len(bad)
 
 
+_private = {"done": False}
+
+
+def _private_copies():
+    """Scratch copies under names of our own: other jobs on this machine clean up /tmp/verif-* wholesale (a run lost its
+    freshly built driver that way), so the spec copy and the driver binary live in c16-* directories."""
+    import shutil
+    if _private["done"]:
+        return
+    d = vlib.scratch("c16-spec-")
+    shutil.copytree(vlib.SPEC, os.path.join(d, "spec"))
+    vlib._spec_copy = os.path.join(d, "spec")
+    _private["done"] = True
+
+
+def _build():
+    import shutil
+    b = vlib.harness_build()
+    d = vlib.scratch("c16-bin-")
+    dst = os.path.join(d, "vdrive")
+    shutil.copy2(b, dst)
+    return dst
+
+
 def run(tier, v):
     thorough = tier == "thorough"
-    vlib.spec_copy()
-    d = vlib.scratch()
+    _private_copies()
+    d = vlib.scratch("c16-")
     cases = os.path.join(d, "cases.ndjson")
     # 1. design level: the case space with the oracle's own invariants; export of the cases; negative controls
     negs = ["ScenarioConfig_neg_droptag.cfg", "ScenarioConfig_neg_dropsize.cfg", "ScenarioConfig_neg_dropmwt.cfg",
@@ -210,7 +237,7 @@ def run(tier, v):
     with concurrent.futures.ThreadPoolExecutor(max_workers=3) as ex:
         main = ex.submit(vlib.tlc, "ScenarioConfigMC", "ScenarioConfig_exh_big.cfg" if thorough else "ScenarioConfig_exh.cfg",
                          env={"VERIF_CASES": cases}, workers=8, heap="6g", deadlock=False, timeout=1500, coverage=thorough)
-        build = ex.submit(vlib.harness_build)
+        build = ex.submit(_build)
         negr = [ex.submit(vlib.tlc, "ScenarioConfigMC", n, workers=2, heap="2g", deadlock=False, timeout=600) for n in negs]
         r = main.result()
         vlib.tlc_must_pass(r, "ScenarioConfig exhaustive")
@@ -231,7 +258,8 @@ def run(tier, v):
         raise vlib.MachineryError("case space suspiciously small: %d" % len(gen))
     # 2. the real code on every case
     trace = os.path.join(d, "trace.ndjson")
-    vlib.run_driver(binary, ["scenconfig", "-cases", cases, "-out", trace, "-workers", "8"], timeout=1200)
+    extra = ["-allstyles"] if thorough else []
+    vlib.run_driver(binary, ["scenconfig", "-cases", cases, "-out", trace, "-workers", "8"] + extra, timeout=1800)
     rows = vlib.read_ndjson(trace)
     if [r_["key"] for r_ in rows] != [g["key"] for g in gen]:
         raise vlib.MachineryError("driver did not answer exactly the generated cases (%d vs %d)" % (len(rows), len(gen)))
@@ -283,7 +311,7 @@ def run(tier, v):
     return "model_checking", cov, [
         "renderers and projections of harness/cmd/vdrive/scenconfig*.go are faithful (trusted base; every disagreement is "
         "reported with the rendered text)",
-        "bounds: 2 requests/calls, <= 2 scenarios, <= 3 variable sources; single substitutions of %d tokens" % (
+        "bounds: 2 requests/calls, <= 2 scenarios, <= 3 variable sources; substitutions of %d tokens" % (
             len({val for g in gen for val in g["key"]["s"].values() if str(val).startswith("T_")})),
         "nil and empty collections are identified (behaviourally equal: consumers range over them / take len())"]
 
@@ -291,11 +319,12 @@ def run(tier, v):
 def replay(path, v):
     import re
     obj = json.load(open(path))
+    _private_copies()
     e = expected_for([obj["key"]])[0]
-    d = vlib.scratch()
+    d = vlib.scratch("c16-")
     cases, trace = os.path.join(d, "cases.ndjson"), os.path.join(d, "trace.ndjson")
     vlib.write_ndjson(cases, [{"id": obj.get("id", 1), "key": e["key"], "desc": e["desc"]}])
-    binary = vlib.harness_build()
+    binary = _build()
     vlib.run_driver(binary, ["scenconfig", "-cases", cases, "-out", trace], env={"VERIF_SEED": obj.get("seed", vlib.seed())})
     t = trace_check(trace, 1, CFG_INVS, 1, 300, "rp")
     bad = set()
